@@ -7,6 +7,7 @@ from vlib import geom
 from checks.c06 import _classes, _make_linear
 
 PROPERTY = "C20"
+TECHNIQUE = 'concolic execution of forward AND backward passes (autograd inside the TorchDispatchMode engine); z3 / polynomial normalisation decides backward term == symbolic derivative of the forward term for all generic values; replay: autograd vs central finite differences on the real code'
 EXPLANATION = (
     "Bounded symbolic execution + SMT of forward AND backward passes. Each differentiable operation is run through the real code with symbolic "
     "inputs / parameters (leaves requiring grad); the scalarised output's term is differentiated symbolically (terms.diff), torch.autograd.grad "
